@@ -408,21 +408,30 @@ def op_sequences(pm: ProgramModel, ctx: Ctx, mb: ModelBuilder, ops: list[Any], p
             g3 = mb.feature("G3", parent=h["a"])
             h["grp"]._f["children"].append(g3)                 # another member of the existing group
             m2 = mb.feature("M2")
-            mb.relation(h["a"], [m2], 1, 1)                     # a new mandatory child, attached with add_relation
+            mb.relation(h["a"], [m2], 0, 1)                     # a new optional child, attached with add_relation
             mb.relation(m2, [mb.feature("M3")], 1, 1)
             h["b"]._f["relations"].remove(h["rb"])              # a sub-tree detached
+            # (chosen so that every operation's answer changes: 6 -> 12 configurations, other leaves, depth, core set ...)
         elif edit == "new-root":
             top = mb.feature("Top")
             mb.relation(top, [h["root"]], 1, 1)                 # the old root becomes the mandatory child of a new one
+            mb.relation(top, [mb.feature("Side")], 0, 1)
             fm._f["root"] = top
 
     def bad_model() -> AObj:
         F = mb.feature
         root, x = F("R"), F("X")
+        lefts = [F(f"Left{i}") for i in range(1, 5)]
+        for i, lf in enumerate(lefts):                          # what is left pending has mandatory children of its own
+            mb.relation(lf, [F(f"Left{i + 1}child")], 1, 1)
+        mb.relation(root, [lefts[0]], 1, 1)
+        mb.relation(root, [lefts[1]], 0, 1)
         mb.relation(root, [x], 1, 1)
+        mb.relation(root, [lefts[2]], 1, 1)
+        mb.relation(root, [lefts[3]], 0, 1)
         r2 = mb.relation(x, [F("Y")], 1, 1)
-        r2._f["children"].append("Driver")                      # a name where a feature belongs: the walk fails half-way
-        return mb.model(root, [])
+        r2._f["children"][0] = "Driver"                         # a name where a feature belongs: the walk fails half-way,
+        return mb.model(root, [])                               # with work still pending whichever way it goes round
 
     def run(it: Interp, ci: Any, op: AObj, fm: AObj) -> Any:
         if ci.name == "FMFeatureAncestors":                     # always asked about the same feature, G1, wherever it hangs
